@@ -14,6 +14,7 @@ from hypothesis import strategies as st
 
 from .. import gen
 from ..engine import (
+    observed_phase,
     FULL_MASK,
     Hooks,
     KINDS,
@@ -186,7 +187,10 @@ def strategy(tier):
 def check(case, stats):
     cfg = case['config']
     h = H()
-    res = run_case(case, hooks=h)
+    ph = observed_phase(cfg)
+    if ph is not None:
+        stats.count('class:observed_run')
+    res = run_case(case, hooks=h, observed=ph)
     stats.count('outcome:' + str(res.outcome))
     if res.outcome == 'discard':
         return []
